@@ -216,6 +216,30 @@ mod c19 {
                 }
             }
         }
+        if !thorough {
+            // content type x (body extractor alone | after shared extractors): the document's request
+            // content type is assembled per extractor, so it needs the extractor list to vary with it
+            for ct in 1..CONTENT_TYPES.len() {
+                for ex in [2usize, 3] {
+                    for ps in [0usize, 1] {
+                        fresh(&mut out, &move |d| {
+                            d.content_type = ct;
+                            d.extractors = ex;
+                            d.path_shape = ps;
+                            d.method = "PUT";
+                        });
+                    }
+                }
+            }
+        }
+        // the root path "/" (the router's root node), one declaration per method, each with a version range
+        for (m, v) in [("GET", 4usize), ("PUT", 2), ("DELETE", 3), ("POST", 9)] {
+            fresh(&mut out, &move |d| {
+                d.path_shape = 4;
+                d.method = m;
+                d.versions = v;
+            });
+        }
         // the doc-shape family, in both comment forms
         for shape in doc_shapes(if thorough { 4 } else { 2 }) {
             for block in [false, true] {
@@ -261,6 +285,7 @@ mod c19 {
             0 => format!("/{p}/x"),
             1 => format!("/{p}/{{id}}"),
             2 => format!("/{p}/{{id}}/sub/{{name}}"),
+            4 => "/".to_string(),
             _ => format!("/{p}/{{rest:.*}}"),
         }
     }
